@@ -260,6 +260,7 @@ func c01CompileStatic(src string) (prog, cg string, err error) {
 type c01StaticReply struct {
 	skip   bool
 	frag   bool
+	kinds  string
 	den    string
 	rt     string
 	static string
@@ -274,7 +275,7 @@ func c01ParseStatic(reply string) c01StaticReply {
 	if len(f) != 5 || f[0] != "static" {
 		return c01StaticReply{bad: reply}
 	}
-	return c01StaticReply{frag: f[1] == "frag=1", den: strings.TrimPrefix(f[2], "den="),
+	return c01StaticReply{frag: strings.HasPrefix(f[1], "frag=1"), kinds: strings.TrimPrefix(f[1], "frag=1"), den: strings.TrimPrefix(f[2], "den="),
 		rt: strings.TrimPrefix(f[3], "rt="), static: f[4]}
 }
 
@@ -324,6 +325,9 @@ func c01StaticCheck(c *Ctx, cases []c01StaticCase, stream string, reported map[s
 		r.hist("static:" + stream + ":covered by the static model (plain or statically sized map calls of stages)")
 		if rep.frag {
 			r.hist("static:" + stream + ":inside-proved-fragment")
+			if strings.Contains(rep.kinds, "E") {
+				r.hist("static:" + stream + ":inside-proved-fragment with run-time disabled controls (modulo dnull->null)")
+			}
 		} else {
 			r.hist("static:" + stream + ":outside-proved-fragment (type check of the model)")
 		}
@@ -370,7 +374,7 @@ func c01StaticCheck(c *Ctx, cases []c01StaticCase, stream string, reported map[s
 				r.violate(Violation{Kind: "correspondence", Key: "C01:two-phase-vs-den",
 					What:   "twoPhase differs from den on a program that passes wellTypedB/acyclicB (the driver's encoding or the theorem's replay is broken)",
 					Input:  map[string]interface{}{"program": cs.src, "name": cs.name},
-					Broken: "resolver_refines_den_mapstatic_checked / resolver_refines_den_mappedpipes_checked"})
+					Broken: "resolver_refines_den_mapstatic_checked / resolver_refines_den_mappedpipes_checked / resolver_refines_den_disabled_checked"})
 			}
 		}
 		if rep.den == "eq" {
